@@ -141,6 +141,10 @@ fn trigger_strategy() -> BoxedStrategy<Node> {
         1 => (atom.clone(), quant.clone()).prop_map(|(b, (min, max, greedy, brace))| Node::Rep { body: Box::new(Node::cap(b)), min, max, greedy, brace }),
         1 => prop_oneof![Just(Node::Bol), Just(Node::Eol)],
         1 => prop::collection::vec(lit.clone(), 2..4).prop_map(Node::Cat),
+        // terms that can match the empty string without being a plain repeat: what follows them decides too
+        1 => (lit.clone(), lit.clone(), lit.clone()).prop_map(|(a, b, c)| Node::ncap(Node::Alt(vec![Node::rep(Node::ncap(Node::Alt(vec![Node::Cat(vec![a, b.clone()]), b])), 0, None, true), c]))),
+        1 => (lit.clone(), lit.clone()).prop_map(|(a, b)| Node::cap(Node::Alt(vec![Node::rep(Node::ncap(Node::Alt(vec![a.clone(), Node::Cat(vec![a, b.clone()])])), 0, Some(2), true), Node::Empty]))),
+        1 => (lit.clone(), lit.clone()).prop_map(|(a, b)| Node::ncap(Node::Alt(vec![Node::Empty, Node::Cat(vec![a, b])]))),
     ];
     (prop::bool::weighted(0.3), prop::collection::vec(x, 1..6), prop::bool::weighted(0.2)).prop_map(|(bol, mut v, eol)| {
         if bol {
